@@ -102,7 +102,8 @@ def instOf {P : Type} (pf : Json → Except String P) (j : Json) : Except String
   let defs ← listD j "defs" argDefOf
   let args ← strListD j "args"
   let rows ← listD j "rows" (rowOf pf)
-  pure { name := getStrD j "name" [], dataSheet := getStrD j "dataSheet" [],
+  let refs ← strListD j "refs"
+  pure { refs := refs, name := getStrD j "name" [], dataSheet := getStrD j "dataSheet" [],
          dataRowId := getStrD j "dataRowId" [], ctx := ctx, defs := defs, args := args, rows := rows }
 
 def probe1Of (j : Json) : Except String Probe1 := do
